@@ -95,6 +95,7 @@ class Ctx(object):
     def _new_path(self, prefix):
         self.prefix = list(prefix)
         self._model = None
+        self.guards = []
         self.decisions = []
         self.pc = []
         self.side = []
@@ -148,6 +149,10 @@ class Ctx(object):
             return True
         if z3.is_false(t):
             return False
+        if self.guards:
+            # a fork inside a speculatively executed if-arm: give the merge up
+            from .merge import MergeFail
+            raise MergeFail()
         i = len(self.decisions)
         if i < len(self.prefix):
             v = self.prefix[i]
